@@ -270,11 +270,42 @@ pub(crate) fn parse_block_size_from_bytes(bytes: &mut &[u8]) -> Result<(u32, usi
 ///     (the first character of consecutive characters that are shortened).
 /// 2.  The length of the *original* consecutive characters
 ///     (that are shortened into [`MAX_SEQUENCE_SIZE`](block_hash::MAX_SEQUENCE_SIZE)).
+#[cfg_attr(not(test), allow(dead_code))]
 #[inline(always)]
 pub(crate) fn parse_block_hash_from_bytes<F, const N: usize>(
     blockhash: &mut [u8; N],
     blockhash_len: &mut u8,
     normalize: bool,
+    bytes: &mut &[u8],
+    report_norm_seq: F,
+) -> (BlockHashParseState, usize)
+where
+    F: FnMut(usize, usize),
+    BlockHashSize<N>: ConstrainedBlockHashSize,
+{
+    parse_block_hash_from_bytes_with_raw_limit::<F, N>(
+        blockhash,
+        blockhash_len,
+        normalize,
+        false,
+        bytes,
+        report_norm_seq,
+    )
+}
+
+/// The variant of [`parse_block_hash_from_bytes()`] with `limit_raw_len`.
+///
+/// If `limit_raw_len` is true, the block hash *before* the normalization
+/// is also limited to `N` characters (just like when `normalize` is false).
+/// This is required when the caller reconstructs the raw block hash from the
+/// sequences reported through `report_norm_seq` (dual fuzzy hashes), because
+/// the reverse normalization data is sized for a raw block hash up to `N`.
+#[inline(always)]
+pub(crate) fn parse_block_hash_from_bytes_with_raw_limit<F, const N: usize>(
+    blockhash: &mut [u8; N],
+    blockhash_len: &mut u8,
+    normalize: bool,
+    #[cfg_attr(feature = "strict-parser", allow(unused_variables))] limit_raw_len: bool,
     bytes: &mut &[u8],
     mut report_norm_seq: F,
 ) -> (BlockHashParseState, usize)
@@ -305,6 +336,13 @@ where
                 break true;
             }
             let curr = bch;
+            #[cfg(not(feature = "strict-parser"))]
+            if crate::internals::intrinsics::unlikely(limit_raw_len && index >= N) {
+                *blockhash_len = len as u8;
+                invariant!(index <= bytes.len());
+                *bytes = &bytes[index..]; // grcov-excl-br-line:ARRAY
+                return (BlockHashParseState::OverflowError, index);
+            }
             if normalize {
                 if curr == prev {
                     seq += 1;
